@@ -17,6 +17,7 @@
    writes into live blocks cannot touch the list because live blocks are not on it
    (C15_pool_inv). *)
 From Coq Require Import List NArith Bool Arith.
+From DuneV Require Import Params_gen.
 Import ListNotations.
 Local Open Scope N_scope.
 
@@ -32,22 +33,24 @@ Record c15_geom := C15Geom {
   g_unionSize : N; g_size : N; g_alignment : N; g_alignedSize : N; g_chunkSize : N; g_elements : N }.
 
 (* (x % al == 0) ? x : ((x / al + 1) * al) *)
-Definition c15_roundup (x al : N) : N := if x mod al =? 0 then x else (x / al + 1) * al.
+Definition c15_roundup_gen (add x al : N) : N := if x mod al =? 0 then x else (x / al + add) * al.
+Definition c15_roundup (x al : N) : N := c15_roundup_gen 1 x al.
+(* the `+ 1` and std::lcm are re-read from poolallocator.hh (Params_gen.v: c15_param_roundup_add_*, c15_param_alignment_is_lcm) *)
 
 Definition c15_geom_raw (sT aT s : N) : c15_geom :=
   let unionSize := if sT <? c15_sizeofRef then c15_sizeofRef else sT in
   let size := if (sT <=? s) && (c15_sizeofRef <=? s) then s else unionSize in
-  let alignment := N.lcm aT c15_alignofRef in
-  let alignedSize := c15_roundup unionSize alignment in
-  let chunkSize := c15_roundup size alignment in
+  let alignment := if c15_param_alignment_is_lcm then N.lcm aT c15_alignofRef else N.gcd aT c15_alignofRef in
+  let alignedSize := c15_roundup_gen c15_param_roundup_add_aligned unionSize alignment in
+  let chunkSize := c15_roundup_gen c15_param_roundup_add_chunk size alignment in
   C15Geom unionSize size alignment alignedSize chunkSize (chunkSize / alignedSize).
 
 (* every `constexpr static int` (and the intermediates of its initialiser) representable *)
 Definition c15_geom_in_range (sT aT s : N) : bool :=
   let g := c15_geom_raw sT aT s in
   (s <=? c15_int_max) && (sT <=? c15_int_max) && (g_alignment g <=? c15_int_max)
-  && ((g_unionSize g / g_alignment g + 1) * g_alignment g <=? c15_int_max)
-  && ((g_size g / g_alignment g + 1) * g_alignment g <=? c15_int_max).
+  && ((g_unionSize g / g_alignment g + c15_param_roundup_add_aligned) * g_alignment g <=? c15_int_max)
+  && ((g_size g / g_alignment g + c15_param_roundup_add_chunk) * g_alignment g <=? c15_int_max).
 
 Definition c15_geometry (sT aT s : N) : option c15_geom :=
   if c15_geom_in_range sT aT s then Some (c15_geom_raw sT aT s) else None.
@@ -112,7 +115,7 @@ Definition c15_pool_destroy (p : c15_pool) : list nat := p_chunks p.
 
 (* PoolAllocator::allocate(n): n == 1 ? pool.allocate() : throw bad_alloc *)
 Definition c15_pa_allocate (g : c15_geom) (p : c15_pool) (n : N) : c15_res (c15_slot * c15_pool) :=
-  if n =? 1 then c15_pool_allocate g p else C15BadAlloc.
+  if n =? c15_param_pa_alloc_n then c15_pool_allocate g p else C15BadAlloc.     (* `if(n==1)`, re-read from the source *)
 
 (* ------------------------------------------------------------------ histories *)
 Inductive c15_op :=
@@ -195,14 +198,181 @@ Fixpoint c15_ops_ok (nlive : nat) (ops : list c15_op) : bool :=
   end.
 
 (* PoolAllocator::max_size() ("Not correctly implemented, yet!") *)
-Definition c15_pa_max_size : N := 1.
+Definition c15_pa_max_size : N := c15_param_pa_max_size.
 (* operator==: two PoolAllocators of the same value type are interchangeable only if they are the same object; allocators of
    different value types never; MallocAllocator / DebugAllocator (stateless) always *)
 Definition c15_pa_equal (same_type same_object : bool) : bool := same_type && same_object.
 Definition c15_stateless_equal : bool := true.
 
+(* ------------------------------------------------------------------ several PoolAllocator objects
+   Allocator j owns pool j.  Copy construction, converting construction and rebind create a NEW allocator whose pool is empty ("we
+   allow copying but never copy the pool"); nothing is shared.  operator== is object identity.  Releasing a block of allocator j
+   through allocator k <> j reaches Pool::free of pool k, whose checking-build search `chunk_ <= b < chunk_+chunkSize` over ITS chunks
+   fails (c15_addr_in_pool below, on addresses): bad_alloc. *)
+Inductive c15_mop :=
+  | MAlloc (j : nat) (n : N) | MFree (j i : nat) | MCopy (j : nat)
+  | MFreeVia (k j i : nat)              (* allocator k . deallocate(i-th live block of allocator j, 1) *)
+  | MEqual (j k : nat).
+Inductive c15_mobs := MObs (o : c15_obs) | MObsEq (b : bool).
+
+Fixpoint c15_set_nth {A} (i : nat) (x : A) (l : list A) : list A :=
+  match l, i with
+  | [], _ => []
+  | _ :: t, O => x :: t
+  | h :: t, S j => h :: c15_set_nth j x t
+  end.
+
+(* Pool::free's search, on addresses: base k c = address of chunk_ of the c-th chunk of allocator k *)
+Definition c15_addr_in_pool (base : nat -> nat -> N) (g : c15_geom) (k : nat) (chunks : list nat) (addr : N) : bool :=
+  existsb (fun c => (base k c <=? addr) && (addr <? base k c + g_chunkSize g)) chunks.
+
+Definition c15_mstep_on (g : c15_geom) (ms : list c15_client) (j : nat) (op : c15_op) : list c15_client * c15_mobs :=
+  match nth_error ms j with
+  | None => (ms, MObs ObsPrecond)
+  | Some st => let '(st', o) := c15_step g st op in (c15_set_nth j st' ms, MObs o)
+  end.
+
+Definition c15_mstep (g : c15_geom) (ms : list c15_client) (op : c15_mop) : list c15_client * c15_mobs :=
+  match op with
+  | MAlloc j n => c15_mstep_on g ms j (OpAlloc n)
+  | MFree j i => c15_mstep_on g ms j (OpFree i)
+  | MCopy j => match nth_error ms j with
+               | Some st => (ms ++ [C15Client (c15_pa_copy (cl_pool st)) []], MObs ObsCopyOk)
+               | None => (ms, MObs ObsPrecond)
+               end
+  | MFreeVia k j i =>
+      if Nat.eqb k j then c15_mstep_on g ms j (OpFree i)
+      else match nth_error ms k, nth_error ms j with
+           | Some _, Some stj => match nth_error (cl_live stj) i with
+                                 | Some _ => (ms, MObs ObsBadAlloc)      (* not in any chunk of pool k *)
+                                 | None => (ms, MObs ObsPrecond)
+                                 end
+           | _, _ => (ms, MObs ObsPrecond)
+           end
+  | MEqual j k => (ms, MObsEq (c15_pa_equal true (Nat.eqb j k)))
+  end.
+
+Fixpoint c15_mrun (g : c15_geom) (ms : list c15_client) (ops : list c15_mop) : list c15_mobs * list c15_client :=
+  match ops with
+  | [] => ([], ms)
+  | op :: r => let '(ms1, o) := c15_mstep g ms op in
+               let '(os, ms2) := c15_mrun g ms1 r in (o :: os, ms2)
+  end.
+
+(* valid multi-allocator histories: indices in range, every release names a live block of the allocator it belongs to *)
+Definition c15_mop_ok (ms : list c15_client) (op : c15_mop) : bool :=
+  match op with
+  | MAlloc j _ => (j <? length ms)%nat
+  | MFree j i => match nth_error ms j with Some st => (i <? length (cl_live st))%nat | None => false end
+  | MCopy j => (j <? length ms)%nat
+  | MFreeVia k j i => (k <? length ms)%nat && match nth_error ms j with Some st => (i <? length (cl_live st))%nat | None => false end
+  | MEqual j k => (j <? length ms)%nat && (k <? length ms)%nat
+  end.
+Fixpoint c15_mops_ok (g : c15_geom) (ms : list c15_client) (ops : list c15_mop) : bool :=
+  match ops with
+  | [] => true
+  | op :: r => c15_mop_ok ms op && c15_mops_ok g (fst (c15_mstep g ms op)) r
+  end.
+
+(* ------------------------------------------------------------------ the intrusive free list, literally
+   The pool of the C++ code has no list object: `head_` points to a free slot and the `next_` pointer of a free slot is stored in
+   the slot's own bytes.  c15_heap gives the contents of that word for every slot address (None = null pointer); the client may
+   overwrite the word of a block it owns with anything (`junk`).  C15_pool_refines shows that this pool and the list-based one
+   above produce the same observations for every history. *)
+Definition c15_heap := c15_slot -> option c15_slot.
+Definition c15_hupd (h : c15_heap) (a : c15_slot) (v : option c15_slot) : c15_heap :=
+  fun x => if c15_slot_eqb x a then v else h x.
+Record c15_hpool := C15HPool { hp_chunks : list nat; hp_head : option c15_slot; hp_heap : c15_heap }.
+Definition c15_hpool_empty (h0 : c15_heap) : c15_hpool := C15HPool [] None h0.
+
+(* grow(): Reference* ref = new (start) Reference; head_ = ref;
+           for(element=start+alignedSize; element<last; element+=alignedSize) { next = new (element) Reference; ref->next_ = next; ref = next; }
+           ref->next_ = 0; *)
+Fixpoint c15_hgrow_loop (fuel : nat) (c : nat) (ref : c15_slot) (element last alignedSize : N) (h : c15_heap) : option c15_heap :=
+  if element <? last then
+    match fuel with
+    | O => None
+    | S f => c15_hgrow_loop f c (c, element) (element + alignedSize) last alignedSize (c15_hupd h ref (Some (c, element)))
+    end
+  else Some (c15_hupd h ref None).
+
+Definition c15_hgrow (g : c15_geom) (p : c15_hpool) : option c15_hpool :=
+  let c := length (hp_chunks p) in
+  let ref := (c, 0) in
+  match c15_hgrow_loop (N.to_nat (g_elements g)) c ref (g_alignedSize g) (g_elements g * g_alignedSize g) (g_alignedSize g) (hp_heap p) with
+  | Some h' => Some (C15HPool (c :: hp_chunks p) (Some ref) h')
+  | None => None
+  end.
+
+(* allocate(): if(!head_) grow(); p = head_; head_ = p->next_; return p; *)
+Definition c15_hallocate (g : c15_geom) (p : c15_hpool) : c15_res (c15_slot * c15_hpool) :=
+  match (match hp_head p with None => c15_hgrow g p | Some _ => Some p end) with
+  | None => C15OutOfFuel
+  | Some p1 => match hp_head p1 with
+               | Some b => C15Ok (b, C15HPool (hp_chunks p1) (hp_heap p1 b) (hp_heap p1))
+               | None => C15Precond
+               end
+  end.
+
+(* free(b): freed->next_ = head_; head_ = freed; *)
+Definition c15_hfree (g : c15_geom) (p : c15_hpool) (b : c15_slot) : c15_res c15_hpool :=
+  if existsb (Nat.eqb (fst b)) (hp_chunks p) && (snd b <? g_chunkSize g)
+  then C15Ok (C15HPool (hp_chunks p) (Some b) (c15_hupd (hp_heap p) b (hp_head p)))
+  else C15BadAlloc.
+
+Record c15_hclient := C15HClient { hc_pool : c15_hpool; hc_live : list c15_slot }.
+
+Definition c15_hstep_free (g : c15_geom) (st : c15_hclient) (i : nat) : c15_hclient * c15_obs :=
+  match nth_error (hc_live st) i with
+  | None => (st, ObsPrecond)
+  | Some b => match c15_hfree g (hc_pool st) b with
+              | C15Ok p' => (C15HClient p' (c15_remove_nth i (hc_live st)), ObsFreed)
+              | C15BadAlloc => (st, ObsBadAlloc)
+              | _ => (st, ObsPrecond)
+              end
+  end.
+
+(* junk b: what the client leaves in the first word of block b while it owns it *)
+Definition c15_hstep (g : c15_geom) (junk : c15_slot -> option c15_slot) (st : c15_hclient) (op : c15_op) : c15_hclient * c15_obs :=
+  match op with
+  | OpAlloc n =>
+      if n =? c15_param_pa_alloc_n then
+        match c15_hallocate g (hc_pool st) with
+        | C15Ok (b, p') =>
+            (C15HClient (C15HPool (hp_chunks p') (hp_head p') (c15_hupd (hp_heap p') b (junk b))) (hc_live st ++ [b]), ObsBlock (fst b) (snd b))
+        | C15BadAlloc => (st, ObsBadAlloc)
+        | C15OutOfFuel => (st, ObsOutOfFuel)
+        | C15Precond => (st, ObsPrecond)
+        | C15Abort => (st, ObsAbort)
+        end
+      else (st, ObsBadAlloc)
+  | OpFree i => c15_hstep_free g st i
+  | OpFreeN i n =>
+      if n =? 0 then (match nth_error (hc_live st) i with Some _ => (st, ObsNoop) | None => (st, ObsPrecond) end)
+      else if n =? 1 then c15_hstep_free g st i
+      else (st, ObsPrecond)
+  | OpFreeInvalid null =>
+      if null then (st, ObsBadAlloc)
+      else match c15_hfree g (hc_pool st) (S (length (hp_chunks (hc_pool st))), 0) with
+           | C15BadAlloc => (st, ObsBadAlloc) | _ => (st, ObsPrecond) end
+  | OpCopy _ =>
+      match c15_hallocate g (c15_hpool_empty junk) with
+      | C15Ok ((O, 0), _) => (st, ObsCopyOk)
+      | _ => (st, ObsPrecond)
+      end
+  | OpFreeBad _ _ => (st, ObsPrecond)
+  end.
+
+Fixpoint c15_hrun (g : c15_geom) (junk : c15_slot -> option c15_slot) (st : c15_hclient) (ops : list c15_op) : list c15_obs * c15_hclient :=
+  match ops with
+  | [] => ([], st)
+  | op :: r => let '(st1, o) := c15_hstep g junk st op in
+               let '(os, st2) := c15_hrun g junk st1 r in (o :: os, st2)
+  end.
+Definition c15_hclient_empty (h0 : c15_heap) := C15HClient (c15_hpool_empty h0) [].
+
 (* ------------------------------------------------------------------ MallocAllocator / AlignedAllocator *)
-Definition c15_max_size (sT : N) : N := c15_size_max / sT.       (* size_type(-1) / sizeof(T) *)
+Definition c15_max_size (sT : N) : N := if c15_param_max_size_divides then c15_size_max / sT else c15_size_max.       (* size_type(-1) / sizeof(T) *)
 
 (* `sys bytes` = std::malloc(bytes), `sysal alignment bytes` = std::aligned_alloc(alignment, bytes): None = null pointer.
    `overal` = the over-aligned-type branch proposed in fixes/C15-3 (true: code after the fix; false: the tree as found,
@@ -236,9 +406,9 @@ Record c15_dbg_info := C15Dbg {
    Result: the bookkeeping entry and the address of the PROT_NONE page. *)
 Definition c15_dbg_allocate_gen (guard : bool) (page ty sT n : N) (mm : N -> option N)
   : c15_res (c15_dbg_info * N) :=
-  if guard && ((c15_size_max - 2 * page) / sT <? n) then C15BadAlloc else
+  if guard && c15_param_dbg_has_guard && ((c15_size_max - c15_param_dbg_guard_pages * page) / sT <? n) then C15BadAlloc else
   let capacity := c15_wrap (n * sT) in
-  let pages := capacity / page + 2 in
+  let pages := capacity / page + c15_param_dbg_extra_pages in
   let overlap := capacity mod page in
   match mm (c15_wrap (pages * page)) with
   | None => C15BadAlloc
@@ -253,7 +423,7 @@ Definition c15_dbg_allocate_gen (guard : bool) (page ty sT n : N) (mm : N -> opt
    above the mapping start:  ptr - (ptr % page_size ? ptr % page_size : page_size) *)
 Definition c15_dbg_page_of_gen (fx : bool) (page ptr : N) : N :=
   let r := ptr mod page in
-  if fx && (r =? 0) then ptr - page else ptr - r.
+  if fx && c15_param_dbg_page_boundary_case && (r =? 0) then ptr - page else ptr - r.
 
 Inductive c15_dbg_err := DbgNotFound | DbgSize | DbgPtr | DbgType | DbgNotFree | DbgLost.
 
@@ -426,4 +596,15 @@ Definition c15_std_align (align size p space : N) : option N :=
   let diff := c15_wrap (aligned + 2 ^ 64 - p) in
   if space - size <? diff then None else Some aligned.
 Definition c15_isAligned (p align : N) : bool :=
-  match c15_std_align align align p (c15_wrap (align * 2)) with Some q => q =? p | None => false end.
+  match c15_std_align align align p (c15_wrap (align * c15_param_isaligned_space_factor)) with Some q => q =? p | None => false end.
+
+(* AlignedBase<align,Impl>::operator new / new[] (count, ptr):  if(!isAligned(ptr, align)) violatedAlignment(className, align, ptr);
+   violatedAlignment:  const auto &handler = violatedAlignmentHandler(); if(handler) handler(className, expectedAlignment, address);
+   the default handler prints a message and calls std::abort() *)
+Inductive c15_handler := HandlerDefault | HandlerUser | HandlerEmpty.
+Inductive c15_place_obs := PlacePlaced | PlaceReported | PlaceAbort.      (* Reported: the user's handler ran, then the object was placed *)
+Definition c15_alignedbase_new (h : c15_handler) (p align : N) : c15_place_obs :=
+  if c15_isAligned p align then PlacePlaced
+  else match h with HandlerDefault => PlaceAbort | HandlerUser => PlaceReported | HandlerEmpty => PlacePlaced end.
+(* debugAlignment = 2*alignof(std::max_align_t) *)
+Definition c15_debug_alignment : N := c15_param_debug_align_factor * c15_max_align.
